@@ -33,7 +33,7 @@ LOOKALIKE = {";": "\u037e", "K": "\u212a", ",": "\uff0c", "(": "\uff08", ")": "\
              "_": "\uff3f", "'": "\uff07", "X": "\uff38", "=": "\uff1d"}
 
 KINDS = [
-    "lookalike",
+    "lookalike", "script_line",
     "tok_delete", "tok_insert", "tok_dup", "tok_swap", "trunc_boundary", "trunc_mid_token",
     "foreign_char", "unterminated_quote", "trailing_garbage", "drop_final_dot",
     "doubled_separator", "unbalanced_bracket", "char_delete", "char_replace",
@@ -97,6 +97,9 @@ def _one(kind, text, sp, rng):
             return None
         s, e, _, _ = rng.choice(long_toks)
         return text[:rng.randrange(s + 1, e)]
+    if kind == "script_line":
+        # text dressed up as a script: an interpreter line (or just its first two characters) in front
+        return rng.choice(["#!/usr/bin/env yldpc\n", "#!", "#! ", "#!yldpc -d\n", "#!\n"]) + text
     if kind == "lookalike":
         pos = [i for i, ch in enumerate(text) if ch in LOOKALIKE]
         if not pos:
